@@ -85,6 +85,20 @@ CHECKS = {
         'The rest of the language (statements, DDL, SDL, migrations, config, describe) is covered by exploration on the REAL parser/printer: texts derived from the repo grammar and mutated upstream corpora, in every entry point and printer mode: parse -> print -> parse -> AST-equal -> print byte-identical; 42 genuine defects are listed as known findings, anything unrecognised is a VIOLATION.',
    note='Trusted: Coq kernel; extraction; translator; harness (term<->qlast conversion, AST canonicaliser with six documented normalisations, finding predicates); vrt substrate: real Rust lexer, own LR(1) tables validated on upstream corpora and against a canonical LR(1) oracle (6 table cells for `a NOT LIKE b LIKE c` shapes undetermined and excluded). '
         'Statement skeletons and DDL are NOT in the Coq core (exploration only). No axioms.'),
+ 'C02': dict(
+   category='proof', design_ref='DESIGN.md section 4, C02/C10/C03/C11 (+ section 9 change log)',
+   technique='Coq proofs about an abstract schema-evolution model (diff for an arbitrary valid matching, any dependency-respecting order, apply) reusing the C20 sort model, and about a transliteration of delta_objects; differential correspondence vs the real delta_objects; end-to-end differential monitors on the real diff/DDL/migration code',
+   text='PARTIAL. Proved for all abstract schemas A, B, all valid matchings (whichever plan the similarity heuristic picks) and all dependency-respecting orders: applying the diff to A gives exactly B, nothing of A outside B remains, the planner (using the C20 sort_ex model) never returns a plan that errors; partition theorems for the delta_objects transliteration '
+        '(every new object created xor paired, every old object deleted xor paired, alter only for 0.6 < similarity < 1). Tie: the real edb.schema.delta.delta_objects on stub objects with scripted compare vs the model (exact), and the real top-level partition of every accepted migration checked by the extracted checker. '
+        'The end-to-end statement is decided on the REAL code by differential monitors (not proofs): generated schema pairs over a feature grammar with ~80 mutation operators through apply_sdl -> delta_schemas -> ddlast_from_delta -> CREATE MIGRATION, in three forms (committed schema, command tree applied directly, migration text replayed); '
+        'equivalence = the repo\'s own delta_schemas is empty AND an independent structural dump is equal. Six genuine defects are known findings.',
+   note='Trusted: Coq kernel; extraction; harness (generator, structural dump, classifier); vrt substrate. NOT modelled: the real compare / as_alter_delta / _get_ast / linearize_delta / apply code of ~40 object classes — mutations there are caught by the monitors, not by a broken proof. Planner completeness is not proved. The testbase migration path (run_ddl) is used, not the server compiler path. No axioms.'),
+ 'C10': dict(
+   category='proof', design_ref='DESIGN.md section 4, C02/C10/C03/C11 (+ section 9 change log)',
+   technique='Coq proofs of path independence over the abstract schema-evolution model (shared with C02); chain-vs-direct and back-to-empty differential monitors on the real migration code',
+   text='PARTIAL. Proved for all chains of abstract schemas where each step may use any partitioned command list in any valid order computed from the actual previous result: the chain ends in the last schema, two paths to the same target agree, a final migration to the empty schema removes everything. '
+        'On the REAL code (monitors): generated chains of schemas (renames, re-parenting, re-typing of objects created by earlier steps) are migrated step by step and directly, and finally to empty; results compared by the repo\'s own delta_schemas and an independent structural dump; residues of the C02 known findings are classified by id.',
+   note='Same trusted base and partiality as C02 (shared model coq/theories/Evo, shared generator and driver). No axioms.'),
 }
 
 NA_DEFAULT = 'check not built yet (round 1 in progress); see DESIGN.md section 6'
